@@ -592,6 +592,12 @@ def _void_returns(helper):
             tail(last.body)
             for hd in last.handlers:
                 tail(hd.body)
+        elif isinstance(last, ast.Try) and not last.finalbody and last.orelse:
+            if any(isinstance(x, ast.Return) for b in last.body for x in ast.walk(b)):
+                ok = False
+            tail(last.orelse)
+            for hd in last.handlers:
+                tail(hd.body)
         elif isinstance(last, ast.With):
             tail(last.body)
         elif any(isinstance(x, ast.Return) for x in ast.walk(last)):
@@ -625,6 +631,17 @@ def _nest_guards_void(stmts):
     return out
 
 
+def _nest_try(stmts):
+    """`try: B except E: <always returns / raises>` followed by more statements: those statements run exactly when B raised nothing, which
+    is the `else:` of the try (an exception of theirs is not caught by its handlers, as before)."""
+    for k, st in enumerate(stmts):
+        if isinstance(st, ast.Try) and not st.finalbody and not st.orelse and st.handlers and all(_always_exits(hd.body) for hd in st.handlers) \
+                and not _always_exits(st.body) and stmts[k + 1:] and not any(isinstance(x, ast.Return) for b in st.body for x in ast.walk(b)):
+            st.orelse = _nest_try(stmts[k + 1:])
+            return stmts[:k + 1]
+    return stmts
+
+
 def _tailify(helper, retname: str):
     """A copy of the helper whose `return e` statements - all in structural tail position (last statement of the body, of an
     if/else arm, of a try body without else/finally, of an except handler, of a with body; never in a loop) and with every
@@ -633,6 +650,7 @@ def _tailify(helper, retname: str):
     h = copy.deepcopy(helper)
     h.body = _search_loop(h.body, retname)
     h.body = _nest_guards(h.body)
+    h.body = _nest_try(h.body)
     ok = True
 
     def tail(stmts):
@@ -659,6 +677,12 @@ def _tailify(helper, retname: str):
             tail(last.orelse)
         elif isinstance(last, ast.Try) and not last.finalbody and not last.orelse:
             tail(last.body)
+            for hd in last.handlers:
+                tail(hd.body)
+        elif isinstance(last, ast.Try) and not last.finalbody and last.orelse:
+            if any(isinstance(x, ast.Return) for b in last.body for x in ast.walk(b)):
+                ok = False
+            tail(last.orelse)
             for hd in last.handlers:
                 tail(hd.body)
         elif isinstance(last, ast.With):
@@ -1403,6 +1427,30 @@ def _inline_in_block(stmts, helpers, caller, cls, rep: Report, failed: set):
             tgt = st.targets[0] if isinstance(st, ast.Assign) else st.target
             same = isinstance(st, ast.Assign) and ast.dump(result, annotate_fields=False).replace("Load()", "X").replace("Store()", "X") == \
                 ast.dump(tgt, annotate_fields=False).replace("Load()", "X").replace("Store()", "X")
+            if not same and isinstance(result, ast.Name) and result.id.startswith("ret__") and isinstance(st, ast.Assign) and len(st.targets) == 1 \
+                    and isinstance(tgt, ast.Name) and not any(isinstance(x, ast.Name) and x.id == result.id for x in ast.walk(caller) if not any(x is y for s_ in new for y in ast.walk(s_))):
+                # the result local is only assigned in tail positions of the inlined statements (nothing of them runs after such an
+                # assignment): it can be the caller's target itself
+                rn_ = _Rename({result.id: tgt.id}, {})
+                new = [rn_.visit(s_) for s_ in new]
+
+                def _drop_xx(block):
+                    out_ = []
+                    for s_ in block:
+                        if isinstance(s_, ast.Assign) and len(s_.targets) == 1 and isinstance(s_.targets[0], ast.Name) and isinstance(s_.value, ast.Name) \
+                                and s_.targets[0].id == s_.value.id:
+                            continue
+                        for fld_ in ("body", "orelse", "finalbody"):
+                            sub_ = getattr(s_, fld_, None)
+                            if isinstance(sub_, list) and sub_ and isinstance(sub_[0], ast.stmt):
+                                kept = _drop_xx(sub_)
+                                setattr(s_, fld_, kept if kept or fld_ != "body" else [ast.copy_location(ast.Pass(), s_)])
+                        for hd_ in getattr(s_, "handlers", []) or []:
+                            hd_.body = _drop_xx(hd_.body) or [ast.copy_location(ast.Pass(), hd_)]
+                        out_.append(s_)
+                    return out_
+                new = _drop_xx(new)
+                same = True
             if not same:
                 new = new + [asg]
         for s in new:
